@@ -9,14 +9,14 @@ SEEDS="$@"; [ -n "$SEEDS" ] || SEEDS=$(ls /verif/seeded)
 ok=0; miss=0; skip=0
 for S in $SEEDS; do
   ID=${S:0:3}
-  git -C $WT checkout -q -- . ; git -C $WT clean -fdq crates 2>/dev/null
+  git -C $WT reset -q --hard; git -C $WT clean -fdq crates 2>/dev/null   # private scratch worktree: reset is safe here
   if ! git -C $WT apply /verif/seeded/$S/patch.diff 2>/dev/null && ! git -C $WT apply --3way /verif/seeded/$S/patch.diff >/dev/null 2>&1; then
-    echo "regress $S $ID patch-does-not-apply"; skip=$((skip+1)); git -C $WT checkout -q -- .; continue
+    echo "regress $S $ID patch-does-not-apply"; skip=$((skip+1)); git -C $WT reset -q --hard; continue
   fi
   out=$(/verif/tools/check_tree.sh $WT "$ID" --tier ${TIER:-quick} 2>&1); rc=$?
   nv=$(echo "$out" | grep -c '^VIOLATION')
   echo "regress $S $ID rc=$rc viol=$nv"
   if [ $rc -eq 1 ]; then ok=$((ok+1)); else miss=$((miss+1)); echo "$out" | tail -3; fi
 done
-git -C $WT checkout -q -- .
+git -C $WT reset -q --hard
 echo "SUMMARY reported=$ok not-reported=$miss patch-does-not-apply=$skip"
